@@ -199,6 +199,8 @@ class Phrase(qcore.Query):
 
     def replace(self, fieldname, oldtext, newtext):
         q = copy.copy(self)
+        # (the copy must not share the word list with the original)
+        q.words = list(self.words)
         if q.fieldname == fieldname:
             for i, word in enumerate(q.words):
                 if word == oldtext:
